@@ -13,6 +13,9 @@ TOTAL_FUNCS = {"isinstance", "hasattr", "len", "str", "bool", "int", "copy.copy"
 TOTAL_METHODS = {"strip", "lstrip", "rstrip", "startswith", "endswith", "split", "splitlines", "replace", "lower", "upper",
                  "partition", "rpartition", "removeprefix", "removesuffix", "find", "get", "items", "keys", "values", "casefold"}
 WAIT_METHODS = {"communicate", "wait"}
+# functions / methods known to raise for some arguments of the stated input domain
+PARTIAL_FUNCS = {"float", "open", "json.loads", "json.load", "next", "min", "max", "getattr", "eval", "exec", "ord", "chr", "base64.b64decode"}
+PARTIAL_METHODS = {"index", "remove", "pop", "decode", "encode", "format", "join"}
 
 
 def _ancestors(node):
@@ -53,6 +56,7 @@ def r10a(repo, chk):
     from .c15 import option_fields
 
     fields = option_fields(repo)
+    unknown = []
     guarded_try = set()
     for t in ast.walk(fn):
         if isinstance(t, ast.Try) and any(catch_all(h) for h in t.handlers):
@@ -70,10 +74,19 @@ def r10a(repo, chk):
                 f = norm(c.func)
                 key = f"compiler:compile_code:call {norm(c)[:70]}"
                 if f == "setattr":
+                    from .c15 import _is_field_set, Scanner
+                    sc_ = Scanner(repo)
                     g = [(norm(t), p) for t, p in cfg.guards(n.id) if isinstance(t, ast.expr)]
-                    ok = any(p and (" in " in t) and ("__dataclass_fields__" in t or "fields(" in t) and t.startswith(norm(c.args[1]) + " in ") for t, p in g)
-                    lit = [t for t, p in g if p and t.startswith(norm(c.args[1]) + " in (") or t.startswith(norm(c.args[1]) + " in [")]
-                    chk.judge("R10.a", key, ok or bool(lit),
+                    ok = False
+                    for t, p in cfg.guards(n.id):
+                        if p and isinstance(t, ast.Compare) and len(t.ops) == 1 and isinstance(t.ops[0], ast.In) and norm(t.left) == norm(c.args[1]) \
+                                and _is_field_set(repo, sc_, t.comparators[0], set(fields)):
+                            ok = True
+                    hasattr_guard = any(p and t.startswith("hasattr(") for t, p in g)
+                    if not ok and not hasattr_guard and not any(" in " in t for t, p in g):
+                        unknown.append(f"setattr({norm(c.args[0])}, {norm(c.args[1])}, …) with guards {g}")
+                        continue
+                    chk.judge("R10.a", key, ok,
                               f"setattr with a name that is not proven to be a dataclass field can raise (e.g. '__class__'); guards: {g}", None, where)
                 elif f in TOTAL_FUNCS or (isinstance(c.func, ast.Attribute) and c.func.attr in TOTAL_METHODS):
                     if f == "CompileOptions" and c.keywords and any(k.arg is None for k in c.keywords):
@@ -81,8 +94,10 @@ def r10a(repo, chk):
                     chk.ok("R10.a", key, {"callee": f})
                 elif isinstance(c.func, ast.Attribute) and c.func.attr == "compile" and isinstance(c.func.value, ast.Call) and norm(c.func.value.func) == "Compiler":
                     chk.ok("R10.a", key, {"callee": "Compiler.compile (containment checked separately)"})
+                elif f in PARTIAL_FUNCS or (isinstance(c.func, ast.Attribute) and c.func.attr in PARTIAL_METHODS):
+                    chk.bad("R10.a", key, f"call of {f} outside any catch-all try can raise for some inputs (it is a partial function): the exception would leave compile_code", None, where)
                 else:
-                    chk.bad("R10.a", key, f"call of {f} outside any catch-all try is not in the audited total set: an exception would leave compile_code", None, where)
+                    unknown.append(f)
             elif isinstance(c, ast.Subscript) and isinstance(c.ctx, ast.Load):
                 key = f"compiler:compile_code:subscript {norm(c)}"
                 ok = False
@@ -99,7 +114,8 @@ def r10a(repo, chk):
                                 ok = True
                 elif isinstance(c.slice, ast.Constant) and c.slice.value == "":
                     par = getattr(c, "parent", None)
-                    ok = isinstance(par, ast.IfExp) and par.body is c and "isinstance" in norm(par.test)
+                    ok = isinstance(par, ast.IfExp) and (par.body is c and norm(par.test).startswith("isinstance(") or
+                                                         par.orelse is c and norm(par.test).startswith("not isinstance("))
                     for t, p in cfg.guards(n.id):
                         if isinstance(t, ast.expr) and norm(t).startswith("isinstance(") and p:
                             ok = True
@@ -107,6 +123,8 @@ def r10a(repo, chk):
                 chk.judge("R10.a", key, ok, "subscript outside any catch-all try may raise IndexError/KeyError", None, where)
             elif isinstance(c, ast.Raise):
                 chk.bad("R10.a", f"compiler:compile_code:raise {norm(c)[:50]}", "compile_code raises", None, where)
+    if unknown and not chk.findings:
+        raise AnalysisError(f"compile_code calls {sorted(set(unknown))} outside any catch-all try: not in the table of total / partial functions, cannot be classified")
     # Compiler.compile containment
     comp = cm.anchor("Compiler.compile")
     chk.saw("compiler", "Compiler.compile")
